@@ -17,6 +17,25 @@ int sh_create(void **ses, int codec_id, int role)
 	return st;
 }
 
+int sh_create_v(void **ses, int codec_id, int role, uint32_t verbosity)
+{
+	of_session_t *s = NULL;
+	ENTER;
+	int st = (int) of_create_codec_instance(&s, (of_codec_id_t) codec_id, (of_codec_type_t) role, verbosity);
+	LEAVE;
+	*ses = (void *) s;
+	return st;
+}
+
+int sh_set_ctrl_field_size(void *ses, uint32_t m)
+{
+	UINT16 v = (UINT16) m;
+	ENTER;
+	int st = (int) of_set_control_parameter((of_session_t *) ses, OF_RS_CTRL_SET_FIELD_SIZE, &v, sizeof(v));
+	LEAVE;
+	return st;
+}
+
 int sh_release(void *ses)
 {
 	ENTER;
